@@ -20,7 +20,7 @@ func init() {
 		Rule: "one case = (MTU, OBU sequence: type, extension ids, payload size relative to the MTU, size field on all or omitted on the last); packetized by AV1Payloader, checked by the reference aggregation-rule checker, reassembled through AV1Depacketizer and through AV1Packet + frame.AV1; complete sub-domains (LEB128, OBU headers) are swept inside executions; non-trivial = more than one packet or more than one element in a packet",
 		Assumptions: []string{
 			"sequences of 1-2 OBUs over the full alphabets (types {0,1,2,3,4,5,6,8,15}, extension none/(0,0)/(1,0)/(0,1)/(2,1), 8-13 sizes), 3 OBUs over 4 types x 3 extensions x 4 sizes, 4 OBUs over 3x3x3 (thorough: 5 OBUs over 3x2x2); MTU {2,3,4,5,6,8,16,130,131,200}",
-			"wide scenario: all sequences of 6-8 OBUs over {frame 1B, frame MTU-1 B, temporal delimiter, frame with another layer id} for MTU {4,9,40}; every OBU type 0-15 x every extension (t,s) with t in 0..7, s in 0..3 alone and after a frame; input size fields padded to non-minimal LEB128; 64-300 one- and two-byte OBUs in one call (more than 256 elements in a packet); OBUs of 16382/16383/16384/70000 bytes (3-byte LEB128 sizes, more than 256 fragments) for MTU {5,200,20000,65535} and of 2^21-2 .. 2^21+1 bytes (4-byte LEB128 sizes) for MTU {20000,65535}",
+			"layer boundaries: all sequences of 3-5 OBUs over {frame of layer (0,0) / (1,0) / (0,1) / without extension, temporal delimiter and tile list with and without extension, sequence header} at MTU {5,200}; wide scenario: all sequences of 6-8 OBUs over {frame 1B, frame MTU-1 B, temporal delimiter, frame with another layer id} for MTU {4,9,40}; every OBU type 0-15 x every extension (t,s) with t in 0..7, s in 0..3 alone and after a frame; input size fields padded to non-minimal LEB128; 64-300 one- and two-byte OBUs in one call (more than 256 elements in a packet); OBUs of 16382/16383/16384/70000 bytes (3-byte LEB128 sizes, more than 256 fragments) for MTU {5,200,20000,65535} and of 2^21-2 .. 2^21+1 bytes (4-byte LEB128 sizes) for MTU {20000,65535}",
 			"OBU payload bytes are position dependent; OBU contents are not parsed by the RTP layer",
 			"LEB128: all 2^32 values in the thorough tier; quick: 4096 values on each side of every 7-bit boundary and a 2^16-stride sweep",
 		},
@@ -353,6 +353,12 @@ func c13Header(c *mc.Ctx) {
 }
 
 // c13Wide: dimensions the product scenario keeps small, taken one at a time.
+// frames of three layers and without extension, removed OBUs with and without extension, a sequence header
+var c13LayerAlphabet = []ref.OBU{
+	{Type: 6, HasExt: true, TID: 0, SID: 0}, {Type: 6, HasExt: true, TID: 1, SID: 0}, {Type: 6, HasExt: true, TID: 0, SID: 1}, {Type: 6},
+	{Type: 2}, {Type: 2, HasExt: true, TID: 1, SID: 0}, {Type: 8}, {Type: 8, HasExt: true, TID: 0, SID: 1}, {Type: 1},
+}
+
 // c13Decoy makes c13RunBytes interleave an unrelated second depacketizer and frame assembler.
 var c13Decoy bool
 
@@ -360,7 +366,19 @@ func c13Wide(c *mc.Ctx) {
 	c13Decoy = c.Bool()
 	defer func() { c13Decoy = false }()
 	omit := c.Bool()
-	switch c.Pick(5) {
+	switch c.Pick(6) {
+	case 5: // OBUs that are removed on the way (temporal delimiter, tile list) between OBUs of different layers
+		mtu := mc.From(c, []int{5, 200})
+		n := 3 + c.Pick(3)
+		if !c.Thorough() && n == 5 && c13Decoy {
+			return
+		}
+		obus := make([]ref.OBU, n)
+		for i := range obus {
+			obus[i] = mc.From(c, c13LayerAlphabet)
+			obus[i].Payload = fill(1+i%2, byte(i*17+1))
+		}
+		c13Run(c, mtu, obus, omit)
 	case 3: // non-minimal (padded) LEB128 size fields in the input, which the AV1 syntax allows
 		mtu := mc.From(c, []int{4, 10, 200})
 		pad := 1 + c.Pick(3)
